@@ -8,10 +8,12 @@ EXTENDS TMEvidenceUniverse
 Chain ==
   [N |-> 6, H0 |-> 1, names |-> <<"n1", "n2", "n3", "n4", "n5">>,
    vals |-> << [n1 |-> 2, n2 |-> 1], [n1 |-> 2, n2 |-> 1], [n1 |-> 1, n2 |-> 1, n3 |-> 1],
-               [n1 |-> 1, n2 |-> 1, n3 |-> 1], [n1 |-> 1, n2 |-> 1, n3 |-> 1], [n1 |-> 1, n2 |-> 1, n3 |-> 1] >>,
+               [n1 |-> 1, n2 |-> 1], [n1 |-> 1, n2 |-> 1], [n1 |-> 1, n2 |-> 1] >>,
+   \* n1 loses power and n3 joins at 3, n3 leaves at 4: late conflicting votes of n1 at 2 / of n3
+   \* at 3 (reported when consensus is already one height further) meet another validator set
    \* h:      1   2   3   4   5   6
    time |-> <<10, 20, 60, 62, 64, 70>>,
-   signed |-> << <<"n1", "n2">>, <<"n1", "n2">>, <<"n1", "n2", "n3">>, <<"n1", "n2">>, <<"n1", "n2", "n3">>, <<"n1", "n2", "n3">> >>,
+   signed |-> << <<"n1", "n2">>, <<"n1", "n2">>, <<"n1", "n2", "n3">>, <<"n1", "n2">>, <<"n1", "n2">>, <<"n1", "n2">> >>,
    A |-> 1, D |-> 5]
 \* item of height 1 (t=10): at H=2 fresh, at H=3 expired by both
 \* item of height 2 (t=20): at H=3 over the duration only, at H=4 both
@@ -21,7 +23,7 @@ Chain ==
 \* equivocation at 3 at H=4 and H=5
 
 AllItems ==
-       DvFamily(Chain, "d1", 1, 1, "n1") \cup DvFamily(Chain, "d2", 2, 2, "n2")
+       DvFamily(Chain, "d1", 1, 1, "n1") \cup DvFamily(Chain, "d2", 2, 2, "n1")
   \cup DvFamily(Chain, "d3", 3, 3, "n3")
   \cup LunaticFamily(Chain, "l3", 4, 3, 4) \cup EquivFamily(Chain, "e3", 5, 3)
 
@@ -29,13 +31,13 @@ AllFn  == ToFn(AllItems)
 IsLca(id) == AllFn[id].wsize = 1 /\ "cvals" \in DOMAIN AllFn[id]
 DvFn  == [id \in {x \in DOMAIN AllFn : "val" \in DOMAIN AllFn[x]} |-> AllFn[id]]
 LcaFn == [id \in {x \in DOMAIN AllFn : "cvals" \in DOMAIN AllFn[x]} |-> AllFn[id]]
-AllPairs == [q1 |-> Pair(Chain, "d1", 1, "n1"), q2 |-> Pair(Chain, "d2", 2, "n2"), q3 |-> Pair(Chain, "d3", 3, "n3")]
+AllPairs == [q1 |-> Pair(Chain, "d1", 1, "n1"), q2 |-> Pair(Chain, "d2", 2, "n1"), q3 |-> Pair(Chain, "d3", 3, "n3")]
 
 CaseCtx == Chain @@ [dv |-> DvFn, lca |-> LcaFn, pairs |-> AllPairs]
 
 PoolDv  == {"d2genuine", "d3genuine"}
 PoolLca == {"l3genuine", "l3fewer", "e3genuine"}
-PoolCtx == Chain @@ [dv |-> Restrict(DvFn, PoolDv), lca |-> Restrict(LcaFn, PoolLca),
+PoolCtx == Chain @@ [dv |-> Restrict(DvFn, PoolDv \cup {"d2valsnext"}), lca |-> Restrict(LcaFn, PoolLca),
                      pairs |-> Restrict(AllPairs, {"q2", "q3"})]
 PoolIds == PoolDv \cup PoolLca
 PoolBegin == {"d2genuine"}
@@ -43,16 +45,16 @@ PoolBegin == {"d2genuine"}
 \* quick tier: five items
 QuickDv  == {"d2genuine", "d3genuine"}
 QuickLca == {"l3genuine", "l3fewer"}
-QuickCtx == Chain @@ [dv |-> Restrict(DvFn, QuickDv), lca |-> Restrict(LcaFn, QuickLca),
-                      pairs |-> Restrict(AllPairs, {"q3"})]
+QuickCtx == Chain @@ [dv |-> Restrict(DvFn, QuickDv \cup {"d2valsnext"}), lca |-> Restrict(LcaFn, QuickLca),
+                      pairs |-> Restrict(AllPairs, {"q2", "q3"})]
 QuickIds == QuickDv \cup QuickLca
 QuickBegin == {"d2genuine"}
 
 \* smaller alphabet for the act-augmented replay graph (no VIEW)
 GraphDv  == {"d2genuine", "d3genuine"}
 GraphLca == {"l3genuine", "l3fewer"}
-GraphCtx == Chain @@ [dv |-> Restrict(DvFn, GraphDv), lca |-> Restrict(LcaFn, GraphLca),
-                      pairs |-> Restrict(AllPairs, {"q3"})]
+GraphCtx == Chain @@ [dv |-> Restrict(DvFn, GraphDv \cup {"d2valsnext"}), lca |-> Restrict(LcaFn, GraphLca),
+                      pairs |-> Restrict(AllPairs, {"q2", "q3"})]
 GraphIds == GraphDv \cup GraphLca
 GraphBegin == {"d2genuine"}
 NoIds == {}
